@@ -47,7 +47,7 @@ CHECKS = {
  "C19": ("reference-model monitor on ecdsa_raw_recover over the hostile (v, r, s, hash) grid incl. r=N, r in [N,P), s multiples of N, identity result; refusals must be ValueError",
          "4.C19", "every recover execution compared with an independent lift-and-solve model; returned keys re-verified by the ECDSA equation in the model; plus the whole (v, r, s, z) space on small prime-order curves (module constants rebound, P = 3 mod 4), which makes r in [N, P), r or s = 0 mod N and the identity result ordinary cases"),
  "C20": ("purity monitor at the call boundary (value digests of every argument and of a registry of all module constants before/after each call) plus an offline history checker over recorded event logs of many interleavings in 16 fresh interpreters with varied PYTHONHASHSEED: same (operation, arguments) => same result digest; registry digest constant",
-         "4.C20", "about 700 distinct (operation, arguments) pairs over all modules, each observed at several positions of several histories; ad-hoc field classes are created mid-history, persistent element objects are shared by several operations of a history, operations that are refused or abandoned half-way (a product that raises in the middle, a timer signal inside a pairing) are included, and every second interpreter adds a four-thread concurrent history whose events go to the same offline checker; any in-place change of public generators, tables, tags or arguments changes a digest; private / lazily initialised module state is not treated as a constant, a wrong cache shows as a history-dependent result"),
+         "4.C20", "about 700 distinct (operation, arguments) pairs over all modules, each observed at several positions of several histories; ad-hoc field classes are created mid-history, persistent element objects are shared by several operations of a history, operations that are refused or abandoned half-way (a product that raises in the middle) are included, and every second interpreter adds a four-thread concurrent history whose events go to the same offline checker; any in-place change of public generators, tables, tags or arguments changes a digest; private / lazily initialised module state is not treated as a constant, a wrong cache shows as a history-dependent result"),
 }
 
 PENDING = {
